@@ -237,6 +237,9 @@ func (scanner *sortingScanner) ScanCursor(tx *bbolt.Tx, cursorProvider ast.SetCu
 	results := &llrb.Tree{}
 	isChildStore := scanner.store.IsChildStore()
 	maxResults := scanner.targetOffset + scanner.targetLimit
+	if scanner.targetOffset > 0 && maxResults < scanner.targetLimit { // int64 overflow, e.g. skip without limit
+		maxResults = math.MaxInt64
+	}
 	for cursor.IsValid() {
 		current := cursor.Current()
 		cursor.Next()
